@@ -302,7 +302,8 @@ template<size_t axis0 = 0, size_t axis1 = 1, class Derived, size_t DIMS,
     enable_if_t_<DIMS==2 && requires_evaluation_v<Derived>,bool> = false>
 FASTOR_INLINE bool issymmetric(const AbstractTensor<Derived,DIMS> &_src, const double Tol=PRECI_TOL) {
     if (!issquare(_src.self())) return false;
-    return all_of( abs(evaluate(trans(_src.self()) - _src.self())) < Tol);
+    // <= and not <: for integral tensors the tolerance is converted to 0
+    return all_of( abs(evaluate(trans(_src.self()) - _src.self())) <= Tol);
 }
 template<size_t axis0 = 0, size_t axis1 = 1, class Derived, size_t DIMS,
     enable_if_t_<DIMS==2 && !requires_evaluation_v<Derived>,bool> = false>
